@@ -25,7 +25,7 @@ def describe(tier):
 
 
 def blocks(tier):
-    bl = K.pair_blocks(tier) + K.many_blocks(tier) + K.run_blocks(tier) + K.block_blocks(tier) + [("manylong", {}), ("huge", {})]
+    bl = K.pair_blocks(tier) + K.many_blocks(tier) + K.run_blocks(tier) + K.block_blocks(tier) + [("manylong", {}), ("huge", {}), ("shared", {})]
     return [(f, dict(p, tier=tier)) for f, p in bl]
 
 
@@ -145,6 +145,22 @@ def run_block(family, p, acc):
                 check_kernels_only(B, A, acc, "runs")
                 acc.case(("runs", tuple(A), tuple(B)), nontrivial=K.overlapping(A, B), outcome=("runs", len(set(A) & set(B))), sample=lambda: {"universe": "runs", "A": A, "B": B})
         return
+    if family == "shared":
+        so = _so()
+        for sa, a, sb, b in K.shared_buffer_views():
+            A, B = a.tolist(), b.tolist()
+            case = {"u": "shared-buffer", "A": A, "B": B, "views": [list(sa), list(sb)]}
+            for op, fn, want in (("intersect", so.set_intersect_merge_np, set(A) & set(B)), ("union", so.set_union_merge_np, set(A) | set(B)), ("difference", so.set_difference_merge_np, set(A) - set(B))):
+                try:
+                    res = fn(a, b)
+                except Exception as e:  # noqa
+                    acc.violation("kernel:" + op, dict(case, op=op), "raised %r" % (e,))
+                    continue
+                msg = K.check_result(res, sorted(want))
+                if msg:
+                    acc.violation("kernel:" + op, dict(case, op=op), "views %r and %r of one buffer: %s" % (sa, sb, msg))
+            acc.case(("shared", sa, sb), nontrivial=True, outcome=("shared", len(set(A) & set(B))), sample=lambda: case)
+        return
     if family == "huge":
         for da, db in K.huge_pairs(tier):
             check_kernels_only(da, db, acc, "blocked", layouts=("contiguous",), label=(da, db))
@@ -196,6 +212,9 @@ def replay(case, site=None):
     acc = Acc(ID, [], stop_at_first=False)
     if "arrays" in case:
         check_many(case["arrays"], acc, case.get("fam"))
+    elif case.get("u") == "shared-buffer":
+        run_block("shared", {"tier": "quick"}, acc)
+        acc.violations[:] = [v for v in acc.violations if v["case"].get("views") == case.get("views")]
     elif case.get("u") in ("runs", "blocked") or case.get("layout") == "strided":
         check_kernels_only(case["A"], case["B"], acc, case.get("u"))
     else:
